@@ -3143,7 +3143,10 @@ public:
     {
         if(is_constant_evaluated())
         {
-            return string_length(data());
+            // array is not necessarily null-terminated so the search has to be
+            // limited to its elements
+            return static_cast<std::size_t>(
+                std::find(begin(), end(), value_type{}) - begin());
         }
         else
         {
